@@ -34,6 +34,11 @@ func newUpkeepStatsBuilder(
 
 	for _, tr := range transmits {
 		block := tr.BlockNumber
+		if block == nil {
+			// sent after the last block was produced: never included in a
+			// block, so not performed on the simulated chain
+			continue
+		}
 
 		// increment the number of transactions for this transaction's address
 		if _, ok := accTr[tr.SendingAddress]; !ok {
